@@ -247,6 +247,11 @@ def build(case, work, name="plt00010"):
         gen.deepen(m, case["deepen"], case["gen"]["seed"])
     if case.get("zero_fine"):
         gen.zero_fine(m, case["gen"]["seed"])
+    if case.get("zero_last"):      # the last field is exactly +0.0 everywhere (an absent species): every FAB ends in NUL bytes
+        for lv in range(m.nlevels):
+            for bi in range(len(m.data[lv])):
+                a = m.data[lv][bi] = np.array(m.data[lv][bi], dtype=np.float64, order="F", copy=True)
+                a[..., -1] = 0.0
     if case.get("ties"):
         gen.tie_extrema(m, case["gen"]["seed"])
     if case.get("uniform_boxes"):
